@@ -36,6 +36,7 @@ PARAM_KINDS = {"ImageOperands", "LoopControl", "MemoryAccess", "TensorAddressing
 SPECIAL_NAMES = {"ret": "Return", "ret_value": "ReturnValue", "begin_function": "Function", "end_function": "FunctionEnd",
                  "begin_block": "Label", "constant_bit32": "Constant", "constant_bit64": "Constant",
                  "spec_constant_bit32": "SpecConstant", "spec_constant_bit64": "SpecConstant"}
+LOADER_TERM = set()      # opcodes on which the loader closes a block (reflect::is_block_terminator, from MIR)
 OUTSIDE_LAYOUT = set()   # OpType*/Op*Constant* opcodes whose class cannot be confirmed offline (name-rule-only tier, DESIGN §5)
 
 NOT_EMITTING = {"insert_into_block", "insert_types_global_values", "pop_instruction", "set_version", "version", "module", "module_ref",
@@ -103,6 +104,14 @@ def run(ctx):
     OUTSIDE_LAYOUT.clear()
     OUTSIDE_LAYOUT.update(n for v, c_ in cat.items() if c_ is None for n in names_of[v])
     ctx.extra["outside_layout_claim"] = sorted(OUTSIDE_LAYOUT)
+    # the loader closes a block exactly on reflect::is_block_terminator (C05); the Builder must agree with that predicate too
+    opv = z3.BitVec("op", 32)
+    valid = z3.Or(*[opv == z3.BitVecVal(v, 32) for v in sorted(names_of)])
+    term_expr = c16.predicate_expr(mf, registry, "is_block_terminator", opv, valid, ctx)
+    LOADER_TERM.clear()
+    for v in sorted(names_of):
+        if z3.is_true(z3.simplify(z3.substitute(term_expr, (opv, z3.BitVecVal(v, 32))))):
+            LOADER_TERM.update(names_of[v])
     rp = Replay()
     nid = z3.BitVec("next_id", 32)
     pre = [z3.UGE(nid, 1), z3.ULE(nid, 0xfffffff0)]
@@ -249,6 +258,8 @@ def check_emission(eng, r, b0, bidx, fields, name, sig, args, entry, kn, qn, var
     sel_b1 = b1.fields[bidx["selected_block"]]
     if ".instructions[" in path and opname not in ("Variable", "Undef", "Line", "NoLine"):
         closes = sel_b1.variant == "None"
+        if closes != (opname in LOADER_TERM) and opname not in ("LifetimeStart", "LifetimeStop", "DemoteToHelperInvocation"):
+            return "%s the block but the loader %s a block on Op%s" % ("closes" if closes else "leaves open", "closes" if opname in LOADER_TERM else "does not close", opname)
         if closes != (opname in terminators) and opname not in ("LifetimeStart", "LifetimeStop", "DemoteToHelperInvocation"):
             return "%s the block although Op%s is %sa block-termination instruction" % ("closes" if closes else "leaves open", opname,
                                                                                        "" if opname in terminators else "not ")
@@ -340,6 +351,9 @@ def check_native(real, name, sig, entry, kn, qn, variant_of_kind, terminators, o
         return "filed into %s, but Op%s belongs into a block" % (a["container"], opname)
     if a["container"].endswith(".instructions") and opname not in ("Variable", "Undef", "Line", "NoLine", "LifetimeStart", "LifetimeStop", "DemoteToHelperInvocation"):
         closes = real.get("sel_b") is None
+        if closes != (opname in LOADER_TERM):
+            return "%s the block but the loader %s a block on Op%s (reflect::is_block_terminator)" % (
+                "closes" if closes else "leaves open", "closes" if opname in LOADER_TERM else "does not close", opname)
         if closes != (opname in terminators):
             return "%s the block although Op%s is %sa block-termination instruction" % ("closes" if closes else "leaves open", opname,
                                                                                        "" if opname in terminators else "not ")
